@@ -22,8 +22,8 @@ ENTRY = dict(
             "set-up finishes within retries x timeout once sensor data has been seen": "theorem (completes, loaded_within)",
             "every unanswered kind is listed as failed": "theorem (errors_exact, unanswered_listed)",
             "no answered kind listed as long as product information was answered": "theorem (answered_not_listed)",
-            "each unanswered request transmitted `retries` times": "theorem (failed_transmitted_R_times, transmitted_at_most_R_times)",
-            "data of every answered request available": "theorem (data_available, answered_data_available) for the model's availability; decoded content by correspondence (the name is in device.data AND the content of the answer given can be read back: named parameters, alerts, schedules, product model ...)",
+            "each unanswered request transmitted `retries` times": "theorem (failed_transmitted_R_times, transmitted_at_most_R_times); C16.spec also rejects a failed list with duplicate entries (proved of the machine in spec_loaded); NOT yet in spec: transmissions of an ANSWERED kind <= the attempt on which it (and, for dependent kinds, product information) was answered — compared by correspondence only (tx counts are part of the model <-> implementation comparison)",
+            "data of every answered request available": "PARTIAL: theorem (data_available, answered_data_available) under the proviso `product information was among the answers` (for the kinds whose handler awaits it); the clause AS WRITTEN is refuted (`holds_full_false`; `full_fails_exactly_when`: it fails exactly on product unanswered + a dependent kind answered) — open finding F11, reproduced by the harness on the real EcoMAX (judge verdict `full-only`); for the model's availability; decoded content by correspondence (the name is in device.data AND the content of the answer given can be read back: named parameters, alerts, schedules, product model ...)",
             "8 requests, product first, 3 attempts x 3 s, handlers that await product information": "table (ecomax_cfg) + correspondence (which handlers block)",
             "the frame-versions handler's requests do not replace or disturb the set-up requests": "theorem (versions_before_setup_irrelevant) + correspondence (regulator-data message with a version table before / during / after set-up)",
             "the judge applied to the implementation accepts every run of the machine": "theorem (holds)",
